@@ -97,6 +97,13 @@ func (m *model) universe() *universe {
 	for _, r := range m.rules {
 		walk(r)
 	}
+	for _, oi := range m.opaque {
+		if oi.first != nil {
+			for _, r := range oi.first.members() {
+				set[r] = true
+			}
+		}
+	}
 	u := &universe{}
 	for r := range set {
 		u.runes = append(u.runes, r)
@@ -107,7 +114,7 @@ func (m *model) universe() *universe {
 
 // canFail: sound "may this expression fail" (false only when it certainly cannot).
 func (m *model) canFail(n *Obj, visiting map[*Obj]bool) bool {
-	if oi := m.opaque[n]; oi != nil {
+	if oi := m.oinfo(n); oi != nil {
 		return oi.mayFail
 	}
 	switch m.typeOf(n) {
@@ -152,13 +159,25 @@ func (e *specEval) eval(n *Obj, st sstate) []sres {
 		return nil
 	}
 	m := e.m
-	if oi := m.opaque[n]; oi != nil {
+	if oi := m.oinfo(n); oi != nil {
 		name := fmt.Sprintf("__c%d", oi.idx)
 		ok := st.clone()
+		feasible := true
+		if oi.first != nil {
+			yes, _ := split(e.u, ok.know, ok.pos, func(r rune) bool { return oi.first.has(r) })
+			if yes == "" {
+				feasible = false
+			} else {
+				ok.know[ok.pos] = yes
+			}
+		}
 		ok.hist = append(ok.hist, fmt.Sprintf("%s@(%s,%s):ok", name, st.pos, st.tok))
 		ok.tok = st.tok + "·" + strings.TrimPrefix(name, "__") + "@" + st.pos
 		ok.pos = "S" + strings.TrimPrefix(name, "__") + "(" + st.pos + ")"
-		out := []sres{{true, ok}}
+		var out []sres
+		if feasible {
+			out = append(out, sres{true, ok})
+		}
 		if oi.mayFail {
 			bad := st.clone()
 			bad.hist = append(bad.hist, fmt.Sprintf("%s@(%s,%s):fail", name, st.pos, st.tok))
@@ -336,10 +355,22 @@ func (e *specEval) eval(n *Obj, st sstate) []sres {
 			return e.eval(m.kids(rule)[0], st)
 		}
 		ok := st.clone()
+		feasible := true
+		if fs := m.ruleFirst(name); fs != nil {
+			yes, _ := split(e.u, ok.know, ok.pos, func(r rune) bool { return fs.has(r) })
+			if yes == "" {
+				feasible = false
+			} else {
+				ok.know[ok.pos] = yes
+			}
+		}
 		ok.hist = append(ok.hist, fmt.Sprintf("rule%s@(%s,%s):ok", name, st.pos, st.tok))
 		ok.tok = st.tok + "·R" + name + "@" + st.pos
 		ok.pos = "R" + name + "(" + st.pos + ")"
-		out := []sres{{true, ok}}
+		var out []sres
+		if feasible {
+			out = append(out, sres{true, ok})
+		}
 		if m.canFail(rule, map[*Obj]bool{}) {
 			bad := st.clone()
 			bad.hist = append(bad.hist, fmt.Sprintf("rule%s@(%s,%s):fail", name, st.pos, st.tok))
